@@ -33,6 +33,7 @@ def check(c: Check):
     check_application_purity(c, 'C13-e', ['exactly_lib.type_val_prims.string_transformer:StringTransformer', 'exactly_lib.type_val_prims.matcher.matcher_base_class:MatcherWTrace'], floor=25)
     clause_f(c)
     clause_h(c)
+    clause_i(c)
     # g: line numbers and interval limits - 0 is a number, None is "no limit"
     check_zero_is_a_value(c, 'C13-g', ['exactly_lib.util.interval.int_interval',
                                        'exactly_lib.util.interval.w_inversion.combinations',
@@ -578,3 +579,55 @@ def _limit_shape(it, v):
             return ('is', tuple(who))
         return (fnm, tuple(sorted(who)))
     return ('?', util.describe(v))
+
+
+# ---------------------------------------------------------------- i
+def clause_i(c: Check):
+    """DT / affine form of the translation of a line number counted from the end (`_NegValuesTranslator._tr`): a number
+    >= 0 is itself; a negative number n is `<number of lines> + n + 1`, and when that reaches before the first line
+    the result is 0 - the number the partitioner drops as "no line" - not 1, which is a line.  The arithmetic is not
+    evaluated: the two arguments of `max` are read as a constant and as a sum of terms."""
+    ix, fo = c.ix, c.fo
+    RM = 'exactly_lib.impls.types.string_transformer.impl.filter.line_nums.range_merge'
+    f = ix.func(RM + ':_NegValuesTranslator._tr')
+    n_param = f.positional_params()[1].arg
+
+    def terms(e, sign=1):
+        """{name: coefficient} of a sum of names / attributes / integer constants; None if not such a sum"""
+        if isinstance(e, ast.BinOp) and isinstance(e.op, (ast.Add, ast.Sub)):
+            a = terms(e.left, sign)
+            b = terms(e.right, sign if isinstance(e.op, ast.Add) else -sign)
+            if a is None or b is None:
+                return None
+            for k, v in b.items():
+                a[k] = a.get(k, 0) + v
+            return a
+        v = fo.fold(f.module, f, e)
+        if isinstance(v, int) and not isinstance(v, bool):
+            return {'1': sign * v}
+        if isinstance(e, (ast.Name, ast.Attribute)):
+            return {unparse(e).split('.')[-1].lstrip('_'): sign}
+        return None
+
+    maxes = [x for x in ast.walk(f.node) if isinstance(x, ast.Call) and isinstance(x.func, ast.Name) and x.func.id == 'max'
+             and len(x.args) == 2]
+    c.require(len(maxes) == 1, 'C13-i: the clamp of _tr (a call of max with two arguments) is not found (%d)' % len(maxes))
+    a0, a1 = maxes[0].args
+    consts = [(fo.fold(f.module, f, a), a) for a in (a0, a1)]
+    floor_ = [v for v, a in consts if isinstance(v, int) and not isinstance(v, bool)]
+    other = [a for v, a in consts if not (isinstance(v, int) and not isinstance(v, bool))]
+    c.expect(floor_ == [0], 'C13-i', '_tr/before-the-first-line-is-no-line',
+             'a negative line number that reaches before the first line is translated to %s, not to 0 (the number that '
+             'stands for "no line"): `-line-nums -5 3` on a text of 3 lines would keep line 1' % (floor_ or '?'), f.loc())
+    t = terms(other[0]) if len(other) == 1 else None
+    want = {'num_lines': 1, n_param: 1, '1': 1}
+    c.expect(t == want, 'C13-i', '_tr/counted-from-the-end',
+             'a negative line number n is translated to the sum %s (expected <number of lines> + n + 1)' % (
+                 t if t is not None else unparse(other[0]) if other else '?'), f.loc())
+    # the non-negative branch gives the number itself
+    ok = False
+    for r in util.returned_values(f):
+        for v in ([r.body, r.orelse] if isinstance(r, ast.IfExp) else [r]):
+            if isinstance(v, ast.Name) and v.id == n_param:
+                ok = True
+    c.expect(ok, 'C13-i', '_tr/non-negative-is-itself', 'a non-negative line number is not given back as it is', f.loc())
